@@ -148,20 +148,20 @@ theorem confirmKeyAck_evs (q : String) (s : Signer) (script : List Srv) (evs : L
 
 def PkRes.evs : PkRes → List Ev
   | .ret out => out.evs
-  | .exhausted _ _ evs _ => evs
+  | .exhausted _ _ evs _ _ => evs
 
 theorem pkLoop_G (user : String) (sa : Option String) :
-    ∀ (signers : List Signer) (orig : Bool) (compat : List Signer) (methods : Option (List String))
+    ∀ (signers : List Signer) (orig : Bool) (compat : List Signer) (methods : Option (List String)) (sigErr : Bool)
       (script : List Srv) (evs : List Ev), G evs →
-      G (pkLoop user sa signers orig compat methods script evs).evs := by
+      G (pkLoop user sa signers orig compat methods sigErr script evs).evs := by
   intro signers
   induction signers with
-  | nil => intro orig compat methods script evs hG; simpa [pkLoop, PkRes.evs] using hG
+  | nil => intro orig compat methods sigErr script evs hG; simpa [pkLoop, PkRes.evs] using hG
   | cons s more ih =>
-    intro orig compat methods script evs hG
+    intro orig compat methods sigErr script evs hG
     unfold pkLoop
     cases hp : pickSignatureAlgorithm s sa with
-    | none => exact ih _ _ _ _ _ hG
+    | none => exact ih _ _ _ _ _ _ hG
     | some algo =>
       simp only []
       have hG1 : G (evs ++ [Ev.wQuery user algo s.key]) := G_append_plain hG (by simp [plainEv])
@@ -173,7 +173,7 @@ theorem pkLoop_G (user : String) (sa : Option String) :
         | inl e => exact c2 (by simp)
         | inr b =>
           cases b with
-          | false => exact ih _ _ _ _ _ (c2 (by simp))
+          | false => exact ih _ _ _ _ _ _ (c2 (by simp))
           | true =>
             simp only []
             obtain ⟨e0, sp, a, rfl, hG0, _, _⟩ := c1 rfl
@@ -187,22 +187,22 @@ theorem pkLoop_G (user : String) (sa : Option String) :
             · simpa [PkRes.evs, failWith] using hGr
             · split
               · simpa [PkRes.evs] using hGr
-              · exact ih _ _ _ _ _ hGr
+              · exact ih _ _ _ _ _ _ hGr
 
 theorem pkAuth_G (user : String) (sa : Option String) (signers : List Signer) (script : List Srv) :
     G (pkAuth user sa signers script).evs := by
   unfold pkAuth
-  have h1 := pkLoop_G user sa signers true [] none script [] G_nil
-  cases hl : pkLoop user sa signers true [] none script [] with
+  have h1 := pkLoop_G user sa signers true [] none false script [] G_nil
+  cases hl : pkLoop user sa signers true [] none false script [] with
   | ret out => simpa [hl, PkRes.evs] using h1
-  | exhausted methods script2 evs2 compat =>
+  | exhausted methods script2 evs2 compat sigErr =>
     rw [hl] at h1
     simp only [PkRes.evs] at h1
     simp only []
-    have h2 := pkLoop_G user sa compat false [] methods script2 evs2 h1
-    cases hl2 : pkLoop user sa compat false [] methods script2 evs2 with
+    have h2 := pkLoop_G user sa compat false [] methods sigErr script2 evs2 h1
+    cases hl2 : pkLoop user sa compat false [] methods sigErr script2 evs2 with
     | ret out => simpa [hl2, PkRes.evs] using h2
-    | exhausted m3 s3 e3 c3 => simpa [hl2, PkRes.evs] using h2
+    | exhausted m3 s3 e3 c3 se3 => simpa [hl2, PkRes.evs] using h2
 
 theorem kbdLoop_evs (p : KbdPolicy) (script : List Srv) (g1 g2 : Bool) (evs : List Ev) :
     ∃ x, (kbdLoop p script g1 g2 evs).evs = evs ++ x ∧ x.all plainEv = true := by
@@ -228,29 +228,61 @@ theorem kbdLoop_evs (p : KbdPolicy) (script : List Srv) (g1 g2 : Bool) (evs : Li
       | (split <;> first | exact step _ _ | exact step2 _ _ _ | exact one _ rfl |
           (split <;> first | exact one _ rfl))
 
+theorem G_append {a b : List Ev} (ha : G a) (hb : G b) : G (a ++ b) := by
+  intro p
+  rw [guarded_append, ha p, hb _]
+  rfl
+
+theorem G_wPlain {e : Ev} (he : plainEv e = true) : G [e] := by
+  intro p
+  exact guarded_plain p [e] (by simp [he])
+
+theorem runBase_G (cfg : Cfg) (sa : Option String) (b : Base) (script : List Srv) (pk : Nat) :
+    G (runBase cfg sa b script pk).1.evs := by
+  unfold runBase
+  cases b with
+  | password pw =>
+    obtain ⟨x, hx, hp⟩ := handleAuthResponse_evs script false [Ev.wPassword cfg.user pw]
+    simp only []
+    rw [hx]
+    exact G_append_plain (G_wPlain (by simp [plainEv])) hp
+  | publickey signers => exact pkAuth_G _ _ _ _
+  | publickeyCb lists => exact pkAuth_G _ _ _ _
+  | kbd pol =>
+    obtain ⟨x, hx, hp⟩ := kbdLoop_evs pol script false false [Ev.wKbd cfg.user]
+    simp only []
+    rw [hx]
+    exact G_append_plain (G_wPlain (by simp [plainEv])) hp
+
+theorem retryIter_G (cfg : Cfg) (sa : Option String) (b : Base) :
+    ∀ (fuel : Nat) (script : List Srv) (pk : Nat) (evs : List Ev) (calls : Nat), G evs →
+      G (retryIter cfg sa b fuel script pk evs calls).1.evs := by
+  intro fuel
+  induction fuel with
+  | zero => intro script pk evs calls h; simpa [retryIter] using h
+  | succ k ih =>
+    intro script pk evs calls h
+    unfold retryIter
+    simp only []
+    have hG := G_append h (runBase_G cfg sa b script pk)
+    split
+    · exact hG
+    · exact ih _ _ _ _ hG
+
 /-- every `auth` call leaves a guarded trace, whatever preceded it -/
-theorem callAuth_G (cfg : Cfg) (sa : Option String) (m : Option Method) (script : List Srv) :
-    G (callAuth cfg sa m script).evs := by
+theorem callAuth_G (cfg : Cfg) (sa : Option String) (m : Option Method) (script : List Srv) (pk : Nat) :
+    G (callAuth cfg sa m script pk).1.evs := by
   unfold callAuth
   cases m with
   | none =>
     obtain ⟨x, hx, hp⟩ := handleAuthResponse_evs script false [Ev.wNone cfg.user]
     simp only []
     rw [hx]
-    exact G_append_plain (fun p => by simp [guarded, guardStep]) hp
+    exact G_append_plain (G_wPlain (by simp [plainEv])) hp
   | some a =>
     simp only [runMethod]
-    cases a with
-    | password pw =>
-      obtain ⟨x, hx, hp⟩ := handleAuthResponse_evs script false [Ev.wPassword cfg.user pw]
-      simp only []
-      rw [hx]
-      exact G_append_plain (fun p => by simp [guarded, guardStep]) hp
-    | publickey signers => exact pkAuth_G _ _ _ _
-    | kbd pol =>
-      obtain ⟨x, hx, hp⟩ := kbdLoop_evs pol script false false [Ev.wKbd cfg.user]
-      simp only []
-      rw [hx]
-      exact G_append_plain (fun p => by simp [guarded, guardStep]) hp
+    cases a.retry with
+    | none => exact runBase_G _ _ _ _ _
+    | some n => exact retryIter_G _ _ _ _ _ _ _ _ G_nil
 
 end XC.C34
